@@ -38,7 +38,25 @@ ENGINES.append({"name": "Html", "path": "coq/theories/Html + coq/gen/Tables_gen.
      "kind_free_text": "F2 Gallina model of html.Minify's token loop on attribute-free documents (white-space state machine, pre/raw text, tag omission, document tags, Keep* options; traits regenerated from html/table.go) and F1 model of parse/html.EscapeAttrVal; rendered-words specification and the HTML tokenizer's attribute-value states; harness/cmd/htmloracle (token dump + x/net/html tree oracle, stub and real registries)"})
 ENGINES.append({"name": "Options", "path": "coq/theories/Cli/CliOpts.v + coq/theories/Js/PrintGroup.v + coq/theories/Html/HtmlOpts.v + coq/gen/JsGates_gen.v + coq/gen/CliOpts_gen.v", "serves_properties": ["C16", "C01"],
      "kind_free_text": "site facts regenerated from js/*.go (version gates, groupExpr operand sites) and cmd/minify/main.go (configuration events of run()), checked in Coq against pinned ECMA-262 editions / the documented flag table and executed symbolically; option theorems over the Html/Xml/Json/JsRename models; harness/cmd/optcheck (real CLI binary vs library for every flag x type)"})
+ENGINES.append({"name": "Embed", "path": "coq/theories/Html/HtmlEmbed*.v + coq/theories/Html/HtmlSelect.v + coq/theories/DataUri", "serves_properties": ["C11"],
+     "kind_free_text": "F2 Gallina model of html.Minify's token loop with an arbitrary registry of sub-minifiers (dispatch of script/style/iframe text and svg/math tokens, ErrNotExist tolerance, failure propagation) and of the media-type selection from the type attribute (on top of the Dispatch model of parse.Mediatype); harness/cmd/htmloracle (32 stub registries, type-attribute table, recording stubs, real minifiers), svgoracle, cssoracle, dataurichk"})
 CHECKS = {
+    "C11": {
+        "engine": "Embed", "design_ref": "DESIGN.md section 4 / C11",
+        "technique": "Coq proof of the commutation law minify(host[payload]) = host'[minify(payload)], pass-through and failure location for all registries, options and attribute-free token lists + byte correspondence with stub registries and an exhaustive type-attribute table; search for attribute contexts, escaping, svg/css hosts, data: URIs",
+        "text": ("Theorems (Props/C11.v): for EVERY registry (function from media types to optional partial minifiers), option setting and token list, "
+                 "minifying with the registry equals rewriting each embedded payload (script/style/iframe text, svg and math tokens, on their documented "
+                 "default types) by its own minifier's result and then minifying the host with no sub-minifier (hypothesis raw_tmpl_ok shown necessary by a "
+                 "Coq counterexample, true for all streams without template actions); unregistered types pass through and the loop is the plain one; the "
+                 "outer call fails iff a dispatched payload's minifier fails, at the token holding that payload; data: URI encoders round-trip (C18). "
+                 "Refuted: dispatch on the type attribute is not case-insensitive (K103). Tie: extracted loop vs html.Minify under 32 stub registries on "
+                 "3,000 documents per run (bytes and failure), html_select vs the real dispatch on a 224-row (element, type, KeepDefaultAttrVals) table. "
+                 "PARTIAL: style/on* attributes, data: URLs in attributes, re-escaping for the host syntax, SVG style elements and attributes, CSS url() "
+                 "are decided by search: htmloracle with recording stubs and the real minifiers, svgoracle with and without a css minifier, cssoracle, "
+                 "dataurichk; open findings K30, K40, K49, K87, K90, K102-K104, K113."),
+        "note": ("Partial. Trusted: Coq kernel, extraction, driver (the OCaml stub registry mirrors the Go one), the Dispatch model of parse.Mediatype "
+                 "(tied by C15), the oracles."),
+    },
     "C16": {
         "engine": "Options", "design_ref": "DESIGN.md section 4 / C16",
         "technique": "Coq proofs per option over the engines' models + proof obligations over site facts regenerated from source (every newer-syntax site dominated by a sufficient minVersion gate; every CLI flag reaches every type of its family) + search by all oracles over option products and by optcheck on the real binary",
